@@ -1,13 +1,22 @@
 /* Contracts for the control-flow GATES of the compiler drivers (C05, C06) and the
  * exit-status paths (C10.exit.*).
  *
- * Every callee of the drivers is replaced by the contract given here on a forward
- * declaration: result nondeterministic, effects recorded in ONE ghost struct
- * __verif_gate.  Phase functions (lexer, parser, imports, type checker, shadow
- * tests, code generators) record a failed result in a sticky *_failed flag; OS
- * writers / executors (fopen in a write mode, fwrite, system, wrapper_generate*,
- * vm_execute, ...) set an effect flag AND carry the precondition GATE_OPEN
- * ("no phase has failed so far"), which DFCC checks at every call site.
+ * The functions under proof (virt_main = main of nano_virt, compile_file,
+ * run_shadow_tests, run_standalone, the generated wrapper main) carry real
+ * function contracts, enforced by goto-instrument --dfcc.
+ *
+ * Every CALLEE of a driver is cut off at its interface.  Its assumed contract is
+ * written as a STUB BODY (the libc_stubs.h convention): nondeterministic result,
+ * effect recorded in ONE ghost struct __verif_gate, and - for OS writers and
+ * executors - the precondition GATE_OPEN ("no phase has failed so far") as an
+ * assertion named "GATE ..." that is checked at every call.  A stub body
+ *     T f(args) { GATE_REQUIRE(..); G.x = 1; return nondet; }
+ * is exactly the contract  requires(GATE_OPEN) assigns(G.x) ensures(G.x == 1)
+ * under --replace-call-with-contract; it is used instead because DFCC builds and
+ * tears down a write set (2^object_bits map) per replaced call, and the drivers
+ * make 50-150 such calls (measured: 985 s with 24 callees contract-replaced in
+ * nano_virt main).  Static helpers of the driver files that must not be inlined
+ * (llm_emit_diags_*) are contract-replaced.
  *
  * Included BEFORE the real driver .c is #included verbatim by the harness. */
 #ifndef GATE_CONTRACTS_H
@@ -19,26 +28,33 @@
 #include <unistd.h>
 
 struct verif_gate {
-    /* phase outcomes (sticky: set to 1 by the contract of the phase function when it reports failure) */
+    /* phase outcomes (sticky: set to 1 by the stub of the phase function when it reports failure) */
     int lex_failed, parse_failed, import_failed, tc_failed, cg_failed;
     int modules_failed, shadow_failed, transpile_failed, ser_failed, load_failed, verify_failed, init_failed;
     /* how often the gate functions ran */
     int tc_calls, shadow_calls;
     /* effects */
-    int artifact_written;   /* fopen(.., "w"/"a"/"+"), fwrite to a non-std stream, wrapper_generate*, emit_module_reflection */
+    int artifact_written;   /* fopen(.., "w"/"a"/"+"), fwrite, wrapper_generate*, emit_module_reflection */
     int cc_invoked;         /* system() */
-    int transpiled;         /* transpile_to_c / codegen reached */
+    int transpiled;         /* transpile_to_c / codegen_compile reached */
     int modules_built;      /* compile_modules (cc on imported C modules; runs before the shadow gate by design) */
-    int executed;           /* vm_execute / vm_call_function / vmd_execute */
-    int main_executed;      /* vm_execute specifically */
+    int executed;           /* vm_execute / vm_call_function */
+    int main_executed;      /* vm_execute specifically (count) */
     int diag_written;       /* llm_emit_diags_*: diagnostics file, not an artifact */
+    /* run_shadow_tests bookkeeping (C06.loop): set by the ghost statements of contracts/loops/eval.c.shadow.loops */
+    int sh_any_failed;        /* some evaluated shadow body left the failure counter > 0 */
+    int sh_reset_violated;    /* a shadow body was evaluated with a non-zero failure counter */
+    int sh_skipped_evaluated; /* the body of a test classified "uses extern" was evaluated */
+    int sh_bodies;            /* number of shadow bodies evaluated */
+    /* nanoc main -> compile_file (C05.exit.nanoc, caller view) */
+    int cf_calls, cf_ret;
     /* path end */
     int exited, exit_status;
 };
 extern struct verif_gate __verif_gate;
 #define G __verif_gate
 
-/* "some phase of the front end has failed" */
+/* "some phase has failed" */
 #define GATE_FAILED (G.lex_failed || G.parse_failed || G.import_failed || G.tc_failed || G.cg_failed || \
                      G.modules_failed || G.shadow_failed || G.transpile_failed || G.ser_failed || G.load_failed || \
                      G.verify_failed || G.init_failed)
@@ -46,15 +62,14 @@ extern struct verif_gate __verif_gate;
 #define GATE_NO_EFFECT (!G.artifact_written && !G.cc_invoked && !G.executed && !G.transpiled)
 /* initial ghost state of an enforced driver function */
 #define GATE_INIT (GATE_OPEN && GATE_NO_EFFECT && !G.modules_built && !G.main_executed && !G.diag_written && \
-                   !G.exited && G.tc_calls == 0 && G.shadow_calls == 0)
-
-/* sticky failure flag: set on failure, untouched otherwise */
-#define STICKY(flag, failed) ((failed) ? G.flag == 1 : G.flag == __CPROVER_old(G.flag))
+                   !G.exited && G.tc_calls == 0 && G.shadow_calls == 0 && G.cf_calls == 0)
+/* precondition of every writer / executor, checked at the call */
+#define GATE_REQUIRE(what) __CPROVER_assert(GATE_OPEN, "GATE " what " is reached only if no phase has failed")
 
 /* ---- exit status spec (C10.exit): taken from the property's reference `nano_virt --run`
  * (src/nanovirt/main.c: error => 1; OK and top of stack is INT => (int)value; else 0).
- * The VM outcome is a ghost INPUT (never assigned): vm_execute returns __verif_vm_r,
- * vm_get_result returns tag/i64 = __verif_top_tag/__verif_top_i64. */
+ * The VM outcome is a ghost INPUT (never assigned, arbitrary): vm_execute returns __verif_vm_r,
+ * vm_get_result returns tag / i64 = __verif_top_tag / __verif_top_i64. */
 extern int __verif_vm_r;
 extern uint8_t __verif_top_tag;
 extern int64_t __verif_top_i64;
@@ -64,38 +79,50 @@ extern int64_t __verif_top_i64;
 #define MODE_WRITES(m) ((m)[0] != 'r' || (m)[1] == '+' || ((m)[1] != 0 && (m)[2] == '+'))
 
 FILE *fopen(const char *path, const char *mode)
-__CPROVER_requires(MODE_WRITES(mode) ==> GATE_OPEN)
-__CPROVER_assigns(G.artifact_written)
-__CPROVER_ensures(MODE_WRITES(mode) ? G.artifact_written == 1 : G.artifact_written == __CPROVER_old(G.artifact_written));
-
+{
+    (void)path;
+    if (MODE_WRITES(mode)) { GATE_REQUIRE("fopen for writing"); G.artifact_written = 1; }
+    return (FILE *)nondet_ptr();
+}
 size_t fwrite(const void *p, size_t sz, size_t n, FILE *f)
-__CPROVER_requires(GATE_OPEN)
-__CPROVER_assigns(G.artifact_written)
-__CPROVER_ensures(G.artifact_written == 1);
-
-size_t fread(void *p, size_t sz, size_t n, FILE *f)
-__CPROVER_requires(1)
-__CPROVER_assigns()      /* buffer content stays what malloc gave: arbitrary */
-__CPROVER_ensures(__CPROVER_return_value <= n);
-
+{
+    (void)p; (void)sz; (void)n;
+    if (f != stdout && f != stderr) { GATE_REQUIRE("fwrite to a file"); G.artifact_written = 1; }
+    return nondet_size();
+}
+/* buffer content stays what malloc gave (arbitrary); at most n items are reported */
+size_t fread(void *p, size_t sz, size_t n, FILE *f) { (void)p; (void)sz; (void)f; size_t r = nondet_size(); __CPROVER_assume(r <= n); return r; }
+int fseek(FILE *f, long off, int wh) { (void)f; (void)off; (void)wh; return nondet_int(); }
+/* ASSUMPTION VERIF_FTELL_MIN: nanoc's compile_file does not test ftell's result; "the size of the file just opened
+ * is obtained" (>= 0) is assumed there; nano_virt / nano_vm test it and get the full range */
 #ifndef VERIF_FTELL_MIN
 #define VERIF_FTELL_MIN (-1L)
 #endif
-int fseek(FILE *f, long off, int wh) __CPROVER_requires(1) __CPROVER_assigns() __CPROVER_ensures(1);
-/* ASSUMPTION: the size of a file that was just opened for reading is obtained (0 <= size, and small enough for size+1) */
-long ftell(FILE *f) __CPROVER_requires(1) __CPROVER_assigns()
-__CPROVER_ensures(__CPROVER_return_value >= VERIF_FTELL_MIN && __CPROVER_return_value <= (1L << 40));
-int fclose(FILE *f) __CPROVER_requires(1) __CPROVER_assigns() __CPROVER_ensures(1);
-
-int system(const char *cmd)
-__CPROVER_requires(GATE_OPEN)
-__CPROVER_assigns(G.cc_invoked)
-__CPROVER_ensures(G.cc_invoked == 1);
-
-int strcmp(const char *a, const char *b) __CPROVER_requires(1) __CPROVER_assigns() __CPROVER_ensures(1);
-int strncmp(const char *a, const char *b, size_t n) __CPROVER_requires(1) __CPROVER_assigns() __CPROVER_ensures(1);
-size_t strlen(const char *a) __CPROVER_requires(1) __CPROVER_assigns() __CPROVER_ensures(1);
-
+long nondet_long(void);
+long ftell(FILE *f) { (void)f; long r = nondet_long(); __CPROVER_assume(r >= VERIF_FTELL_MIN && r <= (1L << 40)); return r; }
+int fclose(FILE *f) { (void)f; return nondet_int(); }
+int remove(const char *p) { (void)p; return nondet_int(); }
+int system(const char *cmd) { (void)cmd; GATE_REQUIRE("system()"); G.cc_invoked = 1; return nondet_int(); }
+int strcmp(const char *a, const char *b) { (void)a; (void)b; return nondet_int(); }
+int strncmp(const char *a, const char *b, size_t n) { (void)a; (void)b; (void)n; return nondet_int(); }
+size_t strlen(const char *a) { (void)a; return nondet_size(); }
+void exit(int status) { G.exited = 1; G.exit_status = status; __CPROVER_assume(0); }
+/* message output: text is not part of any gate property; no effect on the ghost state.
+ * (own copies: this unit does not include libc_stubs.h; CBMC's built-in fprintf/printf models cost
+ *  ~30 s of symbolic execution PER CALL here, the drivers print on every path) */
+#include <stdarg.h>
+/* "reports a diagnostic": with GATE_COUNT_STDERR (driver harnesses) a message to stderr sets the ghost __verif_stderr_msg */
+extern int __verif_stderr_msg;
+#ifdef GATE_COUNT_STDERR
+int fprintf(FILE *f, const char *fmt, ...) { (void)fmt; if (f == stderr) __verif_stderr_msg = 1; return nondet_int(); }
+#else
+int fprintf(FILE *f, const char *fmt, ...) { (void)f; (void)fmt; return nondet_int(); }
+#endif
+int printf(const char *fmt, ...) { (void)fmt; return nondet_int(); }
+int snprintf(char *s, size_t n, const char *fmt, ...) { (void)s; (void)n; (void)fmt; return nondet_int(); }
+int fputs(const char *s, FILE *f) { (void)s; (void)f; return nondet_int(); }
+int fputc(int c, FILE *f) { (void)c; (void)f; return nondet_int(); }
+int fflush(FILE *f) { (void)f; return nondet_int(); }
 
 /* =====================================================================
  * front end shared by both drivers (src/nanolang.h)
@@ -104,47 +131,39 @@ size_t strlen(const char *a) __CPROVER_requires(1) __CPROVER_assigns() __CPROVER
 #include "nanolang.h"
 
 Token *tokenize(const char *source, int *token_count)
-__CPROVER_requires(1)
-__CPROVER_assigns(G.lex_failed, *token_count)
-__CPROVER_ensures(STICKY(lex_failed, __CPROVER_return_value == NULL));
-
+{
+    (void)source; *token_count = nondet_int();
+    Token *r = (Token *)nondet_ptr(); if (r == NULL) G.lex_failed = 1; return r;
+}
 ASTNode *parse_program(Token *tokens, int token_count)
-__CPROVER_requires(1)
-__CPROVER_assigns(G.parse_failed)
-__CPROVER_ensures(STICKY(parse_failed, __CPROVER_return_value == NULL))
-__CPROVER_ensures(__CPROVER_return_value == NULL || __CPROVER_is_fresh(__CPROVER_return_value, sizeof(ASTNode)));
-
+{
+    (void)tokens; (void)token_count;
+    if (nondet_bool()) { G.parse_failed = 1; return NULL; }
+    return (ASTNode *)malloc(sizeof(ASTNode));       /* arbitrary content */
+}
 bool process_imports(ASTNode *program, Environment *env, ModuleList *modules, const char *current_file)
-__CPROVER_requires(1)
-__CPROVER_assigns(G.import_failed)
-__CPROVER_ensures(STICKY(import_failed, !__CPROVER_return_value));
-
+{
+    (void)program; (void)env; (void)modules; (void)current_file;
+    bool r = nondet_bool(); if (!r) G.import_failed = 1; return r;
+}
 bool type_check(ASTNode *program, Environment *env)
-__CPROVER_requires(1)
-__CPROVER_assigns(G.tc_failed, G.tc_calls)
-__CPROVER_ensures(STICKY(tc_failed, !__CPROVER_return_value))
-__CPROVER_ensures(G.tc_calls == __CPROVER_old(G.tc_calls) + 1);
-
+{
+    (void)program; (void)env; G.tc_calls++;
+    bool r = nondet_bool(); if (!r) G.tc_failed = 1; return r;
+}
 bool type_check_module(ASTNode *program, Environment *env)
-__CPROVER_requires(1)
-__CPROVER_assigns(G.tc_failed, G.tc_calls)
-__CPROVER_ensures(STICKY(tc_failed, !__CPROVER_return_value))
-__CPROVER_ensures(G.tc_calls == __CPROVER_old(G.tc_calls) + 1);
-
-Environment *create_environment(void)
-__CPROVER_requires(1) __CPROVER_assigns()
-__CPROVER_ensures(__CPROVER_is_fresh(__CPROVER_return_value, sizeof(Environment)));
-
-ModuleList *create_module_list(void)
-__CPROVER_requires(1) __CPROVER_assigns()
-__CPROVER_ensures(__CPROVER_is_fresh(__CPROVER_return_value, sizeof(ModuleList)));
-
-void clear_module_cache(void) __CPROVER_requires(1) __CPROVER_assigns() __CPROVER_ensures(1);
-void typecheck_set_current_file(const char *path) __CPROVER_requires(1) __CPROVER_assigns() __CPROVER_ensures(1);
-void free_ast(ASTNode *node) __CPROVER_requires(1) __CPROVER_assigns() __CPROVER_ensures(1);
-void free_tokens(Token *tokens, int count) __CPROVER_requires(1) __CPROVER_assigns() __CPROVER_ensures(1);
-void free_environment(Environment *env) __CPROVER_requires(1) __CPROVER_assigns() __CPROVER_ensures(1);
-void free_module_list(ModuleList *list) __CPROVER_requires(1) __CPROVER_assigns() __CPROVER_ensures(1);
+{
+    (void)program; (void)env; G.tc_calls++;
+    bool r = nondet_bool(); if (!r) G.tc_failed = 1; return r;
+}
+Environment *create_environment(void) { return (Environment *)malloc(sizeof(Environment)); }
+ModuleList *create_module_list(void) { return (ModuleList *)malloc(sizeof(ModuleList)); }
+void clear_module_cache(void) { }
+void typecheck_set_current_file(const char *path) { (void)path; }
+void free_ast(ASTNode *node) { (void)node; }
+void free_tokens(Token *tokens, int count) { (void)tokens; (void)count; }
+void free_environment(Environment *env) { (void)env; }
+void free_module_list(ModuleList *list) { (void)list; }
 #endif
 
 /* =====================================================================
@@ -157,47 +176,40 @@ void free_module_list(ModuleList *list) __CPROVER_requires(1) __CPROVER_assigns(
 #include "nanovm/vm_ffi.h"
 #include "nanovm/value.h"
 
-NvmVerifyResult nvm_verify(const NvmModule *mod)
-__CPROVER_requires(1)
-__CPROVER_assigns(G.verify_failed)
-__CPROVER_ensures(STICKY(verify_failed, !__CPROVER_return_value.ok));
-
-void vm_init(VmState *vm, const NvmModule *module) __CPROVER_requires(1) __CPROVER_assigns() __CPROVER_ensures(1);
-void vm_destroy(VmState *vm) __CPROVER_requires(1) __CPROVER_assigns() __CPROVER_ensures(1);
-const char *vm_error_string(VmResult result) __CPROVER_requires(1) __CPROVER_assigns() __CPROVER_ensures(1);
+NvmVerifyResult nvm_verify(const NvmModule *mod) { (void)mod; NvmVerifyResult r; if (!r.ok) G.verify_failed = 1; return r; }
+void vm_init(VmState *vm, const NvmModule *module) { (void)vm; (void)module; }   /* vm stays arbitrary */
+void vm_destroy(VmState *vm) { (void)vm; }
+const char *vm_error_string(VmResult result) { (void)result; return (const char *)nondet_ptr(); }
 
 /* runs the program: result is the ghost input __verif_vm_r (arbitrary) */
 VmResult vm_execute(VmState *vm)
-__CPROVER_requires(GATE_OPEN)
-__CPROVER_assigns(G.executed, G.main_executed)
-__CPROVER_ensures(G.executed == 1 && G.main_executed == __CPROVER_old(G.main_executed) + 1)
-__CPROVER_ensures((int)__CPROVER_return_value == __verif_vm_r);
-
+{
+    (void)vm; GATE_REQUIRE("vm_execute"); G.executed = 1; G.main_executed++;
+    return (VmResult)__verif_vm_r;
+}
 /* runs one function of the program (__init__ in the wrapper) */
 VmResult vm_call_function(VmState *vm, uint32_t fn_idx, NanoValue *args, uint16_t arg_count)
-__CPROVER_requires(GATE_OPEN)
-__CPROVER_assigns(G.executed, G.init_failed)
-__CPROVER_ensures(G.executed == 1)
-__CPROVER_ensures(STICKY(init_failed, __CPROVER_return_value != VM_OK));
-
+{
+    (void)vm; (void)fn_idx; (void)args; (void)arg_count; GATE_REQUIRE("vm_call_function"); G.executed = 1;
+    VmResult r = (VmResult)nondet_int(); if (r != VM_OK) G.init_failed = 1; return r;
+}
 /* top of the VM stack: ghost input (arbitrary, never assigned) */
 NanoValue vm_get_result(VmState *vm)
-__CPROVER_requires(1)
-__CPROVER_assigns()
-__CPROVER_ensures(__CPROVER_return_value.tag == __verif_top_tag && __CPROVER_return_value.as.i64 == __verif_top_i64);
-
-void vm_ffi_init(void) __CPROVER_requires(1) __CPROVER_assigns() __CPROVER_ensures(1);
-void vm_ffi_shutdown(void) __CPROVER_requires(1) __CPROVER_assigns() __CPROVER_ensures(1);
-bool vm_ffi_load_module(const char *module_name) __CPROVER_requires(1) __CPROVER_assigns() __CPROVER_ensures(1);
-void vm_ffi_cop_stop(VmState *vm) __CPROVER_requires(1) __CPROVER_assigns() __CPROVER_ensures(1);
-const char *nvm_get_string(const NvmModule *mod, uint32_t index) __CPROVER_requires(1) __CPROVER_assigns() __CPROVER_ensures(1);
-void nvm_module_free(NvmModule *mod) __CPROVER_requires(1) __CPROVER_assigns() __CPROVER_ensures(1);
-
+{
+    (void)vm; NanoValue v; v.tag = __verif_top_tag; v.as.i64 = __verif_top_i64; return v;
+}
+void vm_ffi_init(void) { }
+void vm_ffi_shutdown(void) { }
+bool vm_ffi_load_module(const char *module_name) { (void)module_name; return nondet_bool(); }
+void vm_ffi_cop_stop(VmState *vm) { (void)vm; }
+const char *nvm_get_string(const NvmModule *mod, uint32_t index) { (void)mod; (void)index; return (const char *)nondet_ptr(); }
+void nvm_module_free(NvmModule *mod) { (void)mod; }
 NvmModule *nvm_deserialize(const uint8_t *data, uint32_t size)
-__CPROVER_requires(1)
-__CPROVER_assigns(G.load_failed)
-__CPROVER_ensures(STICKY(load_failed, __CPROVER_return_value == NULL))
-__CPROVER_ensures(__CPROVER_return_value == NULL || __CPROVER_is_fresh(__CPROVER_return_value, sizeof(NvmModule)));
+{
+    (void)data; (void)size;
+    if (nondet_bool()) { G.load_failed = 1; return NULL; }
+    return (NvmModule *)malloc(sizeof(NvmModule));   /* arbitrary content */
+}
 #endif
 
 /* =====================================================================
@@ -208,42 +220,169 @@ __CPROVER_ensures(__CPROVER_return_value == NULL || __CPROVER_is_fresh(__CPROVER
 #include "nanovirt/wrapper_gen.h"
 
 CodegenResult codegen_compile(ASTNode *program, Environment *env, ModuleList *modules, const char *input_file)
-__CPROVER_requires(GATE_OPEN)
-__CPROVER_assigns(G.cg_failed, G.transpiled)
-__CPROVER_ensures(STICKY(cg_failed, !__CPROVER_return_value.ok) && G.transpiled == 1)
-__CPROVER_ensures(__CPROVER_return_value.ok ==> __CPROVER_is_fresh(__CPROVER_return_value.module, sizeof(NvmModule)));
-
+{
+    (void)program; (void)env; (void)modules; (void)input_file;
+    GATE_REQUIRE("codegen_compile");
+    __CPROVER_assert(G.tc_calls == 1, "GATE codegen_compile only after the type checker has run (and passed)");
+    G.transpiled = 1;
+    CodegenResult r;
+    if (!r.ok) G.cg_failed = 1; else r.module = (NvmModule *)malloc(sizeof(NvmModule));
+    return r;
+}
 uint8_t *nvm_serialize(const NvmModule *mod, uint32_t *out_size)
-__CPROVER_requires(GATE_OPEN)
-__CPROVER_assigns(G.ser_failed, *out_size)
-__CPROVER_ensures(STICKY(ser_failed, __CPROVER_return_value == NULL));
-
+{
+    (void)mod; GATE_REQUIRE("nvm_serialize"); *out_size = nondet_u32();
+    if (nondet_bool()) { G.ser_failed = 1; return NULL; }
+    return (uint8_t *)malloc(1);
+}
 bool wrapper_generate(const NvmModule *module, const uint8_t *blob, uint32_t blob_size, const char *output_path,
                       const char *source_path, const ASTNode *program, bool verbose)
-__CPROVER_requires(GATE_OPEN)
-__CPROVER_assigns(G.artifact_written, G.cc_invoked)
-__CPROVER_ensures(G.artifact_written == 1 && G.cc_invoked == 1);
-
+{
+    (void)module; (void)blob; (void)blob_size; (void)output_path; (void)source_path; (void)program; (void)verbose;
+    GATE_REQUIRE("wrapper_generate"); G.artifact_written = 1; G.cc_invoked = 1; return nondet_bool();
+}
 bool wrapper_generate_daemon(const uint8_t *blob, uint32_t blob_size, const char *output_path, bool verbose)
-__CPROVER_requires(GATE_OPEN)
-__CPROVER_assigns(G.artifact_written, G.cc_invoked)
-__CPROVER_ensures(G.artifact_written == 1 && G.cc_invoked == 1);
-
-void vm_ffi_set_env(Environment *env) __CPROVER_requires(1) __CPROVER_assigns() __CPROVER_ensures(1);
+{
+    (void)blob; (void)blob_size; (void)output_path; (void)verbose;
+    GATE_REQUIRE("wrapper_generate_daemon"); G.artifact_written = 1; G.cc_invoked = 1; return nondet_bool();
+}
+void vm_ffi_set_env(Environment *env) { (void)env; }
 
 /* the function under proof: main of nano_virt (renamed virt_main by the harness: a name, not code).
  * C05.gate.virt: a failed lexer / parser / import / type-check / codegen phase implies
  * non-zero status, nothing written, nothing executed, no C compiler run. */
 int virt_main(int argc, char **argv)
 __CPROVER_requires(argc >= 1 && argc <= 4096 && __CPROVER_is_fresh(argv, ((size_t)argc + 1) * sizeof(char *)))
-__CPROVER_requires(GATE_INIT)
-__CPROVER_assigns(G)
+__CPROVER_requires(GATE_INIT && __verif_stderr_msg == 0)
+__CPROVER_assigns(G, __verif_stderr_msg)
 __CPROVER_ensures((G.lex_failed || G.parse_failed || G.import_failed || G.tc_failed || G.cg_failed) ==>
-                  (__CPROVER_return_value != 0 && !G.artifact_written && !G.executed && !G.cc_invoked))
+                  (__CPROVER_return_value != 0 && !G.artifact_written && !G.executed && !G.cc_invoked && __verif_stderr_msg))
 /* and the type checker really is consulted on every path that writes or runs something */
 __CPROVER_ensures((G.artifact_written || G.executed || G.cc_invoked) ==> (G.tc_calls == 1 && !G.tc_failed))
 /* C10.exit.virt (reference): the status after --run */
 __CPROVER_ensures(G.main_executed ==> __CPROVER_return_value == SPEC_EXIT(__verif_vm_r, __verif_top_tag, __verif_top_i64));
+#endif
+
+/* =====================================================================
+ * nanoc only (src/main.c, compile_file)
+ * ===================================================================== */
+#ifdef GATE_NANOC
+#include "module_builder.h"
+#include "interpreter_ffi.h"
+#include "reflection.h"
+#include "runtime/list_CompilerDiagnostic.h"
+#include "toon_output.h"
+#include "nanocore_subset.h"
+#include "nanocore_export.h"
+
+List_CompilerDiagnostic *nl_list_CompilerDiagnostic_new(void) { return (List_CompilerDiagnostic *)nondet_ptr(); }
+void nl_list_CompilerDiagnostic_push(List_CompilerDiagnostic *list, struct nl_CompilerDiagnostic value) { (void)list; (void)value; }
+void nl_list_CompilerDiagnostic_free(List_CompilerDiagnostic *list) { (void)list; }
+void free(void *p) { (void)p; }                      /* release is not part of the gate property; nothing is reused */
+char *getenv(const char *n) { (void)n; return (char *)nondet_ptr(); }
+int setenv(const char *n, const char *v, int o) { (void)n; (void)v; (void)o; return nondet_int(); }
+int unsetenv(const char *n) { (void)n; return nondet_int(); }
+char *realpath(const char *p, char *r) { (void)p; (void)r; return (char *)nondet_ptr(); }
+char *getcwd(char *b, size_t n) { (void)b; (void)n; return (char *)nondet_ptr(); }
+char *strcpy(char *d, const char *s_) { (void)s_; return d; }                /* destination content: left as is */
+char *strncpy(char *d, const char *s_, size_t n) { (void)s_; (void)n; return d; }
+void toon_diagnostics_enable(void) { }
+/* result lies inside the object s points into (the drivers write a NUL through it) */
+char *strrchr(const char *s, int c)
+{
+    (void)c; if (nondet_bool()) return NULL;
+    size_t o = nondet_size(); __CPROVER_assume(o < __CPROVER_OBJECT_SIZE(s) - __CPROVER_POINTER_OFFSET(s));
+    return (char *)s + o;
+}
+/* strdup is contract-replaced (is_fresh; a malloc inside a loop body is refused by DFCC loop contracts):
+ * a writable object; 64 bytes stand for "strlen+1", only writability matters to the callers */
+char *strdup(const char *s)
+__CPROVER_requires(1) __CPROVER_assigns()
+__CPROVER_ensures(__CPROVER_is_fresh(__CPROVER_return_value, 64));
+
+TrustReport *nanocore_trust_report(ASTNode *program, Environment *env) { (void)program; (void)env; return (TrustReport *)nondet_ptr(); }
+void nanocore_print_trust_report(TrustReport *report, const char *filename) { (void)report; (void)filename; }
+void nanocore_free_trust_report(TrustReport *report) { (void)report; }
+TrustLevel nanocore_function_trust(ASTNode *func, Environment *env) { (void)func; (void)env; return (TrustLevel)nondet_int(); }
+char *nanocore_export_sexpr(ASTNode *node, Environment *env) { (void)node; (void)env; return (char *)nondet_ptr(); }
+char *nanocore_reference_eval(const char *sexpr, const char *compiler_path) { (void)sexpr; (void)compiler_path; return (char *)nondet_ptr(); }
+
+/* writes the reflection JSON: a file written by the tool */
+bool emit_module_reflection(const char *output_path, ASTNode *program, Environment *env, const char *module_name)
+{
+    (void)output_path; (void)program; (void)env; (void)module_name;
+    GATE_REQUIRE("emit_module_reflection"); G.artifact_written = 1; return nondet_bool();
+}
+/* builds the imported C modules (cc, objects in the module directories) - before the shadow gate by design */
+bool compile_modules(ModuleList *modules, Environment *env, char *module_objs_buffer, size_t buffer_size,
+                     char *compile_flags_buffer, size_t compile_flags_buffer_size, bool verbose)
+{
+    (void)modules; (void)env; (void)module_objs_buffer; (void)buffer_size; (void)compile_flags_buffer; (void)compile_flags_buffer_size; (void)verbose;
+    GATE_REQUIRE("compile_modules"); G.modules_built = 1;
+    bool r = nondet_bool(); if (!r) G.modules_failed = 1; return r;
+}
+bool ffi_init(bool verbose) { (void)verbose; return nondet_bool(); }
+void ffi_cleanup(void) { }
+bool ffi_load_module(const char *module_name, const char *module_path, Environment *env, bool verbose)
+{ (void)module_name; (void)module_path; (void)env; (void)verbose; return nondet_bool(); }
+ModuleBuildMetadata *module_load_metadata(const char *module_dir) { (void)module_dir; return (ModuleBuildMetadata *)nondet_ptr(); }
+void module_metadata_free(ModuleBuildMetadata *meta) { (void)meta; }
+ASTNode *load_module(const char *module_path, Environment *env) { (void)module_path; (void)env; return (ASTNode *)nondet_ptr(); }
+
+/* the interpreter runs the shadow bodies: program code is executed */
+bool run_shadow_tests(ASTNode *program, Environment *env, bool verbose)
+{
+    (void)program; (void)env; (void)verbose;
+    GATE_REQUIRE("run_shadow_tests"); G.executed = 1; G.shadow_calls++;
+    bool r = nondet_bool(); if (!r) G.shadow_failed = 1; return r;
+}
+/* C generation.  With GATE_CUT_AT_TRANSPILE the path ENDS here: the obligation then covers compile_file from its
+ * entry up to and including this call; everything behind it (temp .c file, cc command, system()) is reachable only
+ * through this call (compile_file has no goto/label; checked textually by the registry), where GATE_OPEN is asserted. */
+char *transpile_to_c(ASTNode *program, Environment *env, const char *input_file)
+{
+    (void)program; (void)env; (void)input_file;
+    GATE_REQUIRE("transpile_to_c");
+    __CPROVER_assert(G.tc_calls == 1 && G.shadow_calls == 1, "GATE transpile_to_c only after the type checker and the shadow tests have run (and passed)");
+    G.transpiled = 1;
+#ifdef GATE_CUT_AT_TRANSPILE
+    __CPROVER_assume(0);
+#endif
+    char *r = (char *)nondet_ptr(); if (r == NULL) G.transpile_failed = 1; return r;
+}
+#endif
+
+/* =====================================================================
+ * run_shadow_tests (src/eval.c)
+ * ===================================================================== */
+#ifdef GATE_SHADOW
+#include "nanolang.h"
+#include <fcntl.h>
+/* allocator model for the `failures` report array, which lives across loop iterations (an object allocated inside
+ * a loop cannot be carried by a DFCC loop invariant): realloc grows IN PLACE inside one fixed pool and fails (NULL)
+ * beyond VERIF_POOL_BYTES or whenever it likes.  ASSUMPTION: behaviours in which more than VERIF_POOL_BYTES of
+ * failure records are obtained are not explored; the array only feeds the JSON report, never the result. */
+#ifndef VERIF_POOL_BYTES
+#define VERIF_POOL_BYTES 512
+#endif
+extern char __verif_pool[VERIF_POOL_BYTES];
+#ifdef VERIF_REALLOC_FAILS
+/* quick-tier variant: "the report array cannot be allocated" (a legal allocator behaviour; run_shadow_tests then simply
+ * records no failure entries).  The complete allocator model below is the thorough-tier obligation C06.loop.report. */
+void *realloc(void *p, size_t n) { (void)p; (void)n; return NULL; }
+#else
+void *realloc(void *p, size_t n) { (void)p; if (nondet_bool() || n > VERIF_POOL_BYTES) return NULL; return __verif_pool; }
+#endif
+void free(void *p) { (void)p; }
+char *getenv(const char *n) { (void)n; return (char *)nondet_ptr(); }
+Function *env_get_function(Environment *env, const char *name) { (void)env; (void)name; return (Function *)nondet_ptr(); }
+int dup(int fd) { (void)fd; return nondet_int(); }
+int dup2(int a, int b) { (void)a; (void)b; return nondet_int(); }
+int close(int fd) { (void)fd; return nondet_int(); }
+int open(const char *p, int fl, ...) { (void)p; (void)fl; return nondet_int(); }
+
+#define SH_INIT (!G.sh_any_failed && !G.sh_reset_violated && !G.sh_skipped_evaluated && G.sh_bodies == 0)
+#define PROGRAM_OK(p) ((p) != NULL && (p)->type == AST_PROGRAM)
 #endif
 
 #endif
